@@ -550,10 +550,12 @@ def r_ret(ctx):
         defs = [s for s in flow.stmts_of(rec, ast.Assign) if any(isinstance(t, ast.Name) and t.id == name for t in s.targets)]
         from_dict = [s for s in defs if isinstance(s.value, ast.Subscript) and is_const(s.value.slice, 1)]
         zero = [s for s in defs if is_const(s.value) and s.value.value in (0, 0.0)]
-        ok = len(defs) == 2 and len(from_dict) == 1 and len(zero) == 1
+        via_get = [s for s in defs if isinstance(s.value, ast.Call) and call_name(s.value) == "get" and len(s.value.args) == 2 and is_const(s.value.args[0], 1)
+                   and is_const(s.value.args[1]) and s.value.args[1].value in (0, 0.0)]
+        ok = (len(defs) == 2 and len(from_dict) == 1 and len(zero) == 1) or (len(defs) == 1 and len(via_get) == 1)
         msg = "returned value is entry 1 (the constant) of the decomposition, 0 when absent"
         if ok:
-            dname = dotted(from_dict[0].value.value)
+            dname = dotted(from_dict[0].value.value) if from_dict else dotted(via_get[0].value.func.value)
             ddefs = [s for s in flow.stmts_of(rec, ast.Assign) if any(isinstance(t, ast.Name) and t.id == dname for t in s.targets)]
             ok = len(ddefs) == 1 and _prune_sym_of_objective_minus_combination(rec, ddefs[0].value)
             if not ok:
@@ -674,3 +676,27 @@ def r_primalflow(ctx):
     else:
         msg = "%d publications of G_value / F_value, %d evaluations of the leaves" % (len(publishes), len(evals))
     ctx.ob("R-PRIMALFLOW", "PEP.%s::published instance is the last solution" % root.name, okp, msg, loc(root, publishes[0] if publishes else root))
+
+
+def r_fresh_declarations(ctx, only=None):
+    """declare_function / set_initial_point / declare_block_partition build and return a NEW object at every call, on every path."""
+    pep = common.pep_class(ctx.repo)
+    for name, ctor in (("declare_function", None), ("set_initial_point", "Point"), ("declare_block_partition", "BlockPartition")):
+        if only and name not in only:
+            continue
+        fn = pep.methods.get(name)
+        if fn is None:
+            raise AnalysisError("PEP.%s missing" % name)
+        ctx.unit(qualname(fn))
+        rets = [r for r in ast.walk(fn) if isinstance(r, ast.Return)]
+        ok = len(rets) == 1 and isinstance(rets[0].value, ast.Name) and not flow.conditions_guarding(rets[0]) and flow.in_loop(rets[0]) is None
+        msg = "returns conditionally / several returns"
+        if ok:
+            v = rets[0].value.id
+            defs = [s for s in flow.stmts_of(fn, ast.Assign) if dotted(s.targets[0]) == v]
+            ok = len(defs) == 1 and isinstance(defs[0].value, ast.Call) and not flow.conditions_guarding(defs[0]) and flow.in_loop(defs[0]) is None \
+                and (call_name(defs[0].value) == ctor if ctor else isinstance(defs[0].value.func, ast.Name) and defs[0].value.func.id in params_of(fn))
+            msg = "builds a new object and returns it" if ok else "the returned object is `%s`" % (norm_stmt(defs[0])[:70] if defs else v)
+        else:
+            msg = "%d return statement(s), some conditional or in a loop: an existing object can be handed back instead of a new one" % len(rets)
+        ctx.ob("R-NEWOBJ", "PEP.%s" % name, ok, msg, loc(fn, fn))
